@@ -256,7 +256,13 @@ def read_dump(dump_dir, name):
     fn = os.path.join(dump_dir, name + '.dump')
     if not os.path.exists(fn):
         return None
-    return open(fn).read().split('\n')
+    lines = open(fn).read().split('\n')
+    # a crate that is rebuilt (after a failing program was removed from it) expands its lexers again and the
+    # hooks append: keep the last expansion only
+    begins = [i for i, l in enumerate(lines) if l.startswith('BEGIN ')]
+    if len(begins) > 1:
+        lines = lines[begins[-1]:]
+    return lines
 
 
 def split_dump(lines):
